@@ -326,6 +326,7 @@ def main(out_path: str):
 
     # ---- C18: literals of the validator / CLI state machine (pulled from the function ASTs)
     parts += c18_tables()
+    parts += [list_s("selectQuestionFields", question.SELECT_QUESTION_FIELDS), list_s("optionFields", question.OPTION_FIELDS)]  # C08: header_columns of the survey / choices sheets
     parts.append("end Pyxv.Gen\n")
     Path(out_path).write_text("\n\n".join(parts))
 
